@@ -16,7 +16,7 @@ func (C05) ID() string { return "C05" }
 
 func (C05) Generate(r *core.Rand, tier string, idx int) *core.Scenario {
 	//                 app sto exp uex cop mov fet sel clo noo chk sea del dla idl don adv cnw cfl cbx cdl prb cvg flp
-	weights := []int{8, 10, 8, 3, 5, 8, 9, 1, 0, 5, 1, 6, 12, 2, 1, 1, 1, 3, 2, 5, 4, 0, 0, 5}
+	weights := []int{8, 10, 8, 3, 5, 8, 9, 1, 0, 5, 1, 6, 12, 2, 3, 3, 1, 3, 2, 5, 4, 0, 0, 5}
 	sc := genGated(r, "C05", weights, 25, 70)
 	// the observer (session 0) mostly reads; make the others the ones that remove
 	for i := range sc.Actions {
@@ -58,6 +58,7 @@ func (C05) Execute(sc *core.Scenario, keepLog bool) *core.Result {
 			return
 		}
 		defer g.Diagnose()
+		g.PipeAfterDone = true
 		cross, held := 0, 0
 		var hook func(si int, kind string, before []wire.Entry, r *wire.Result)
 		learnMarkers := func(si int) {
